@@ -339,7 +339,7 @@ def replay(beh_path, mode="inline", nproc=NPROC, base_seed=None, fs=True, timeou
                     last = max(g["id"] for g in got)
                     if last + 1 < job[0] + job[1]:
                         pending.append((last + 1, job[0] + job[1] - last - 1))
-                elif p.returncode != 0 or len(got) != job[1] * per:
+                elif p.returncode != 0 or len(got) < job[1] * per:
                     # a worker died: the behaviour it was executing made the real code panic or hang
                     done_ids = {g["id"] for g in got}
                     crashed = [i for i in range(job[0], job[0] + job[1]) if i not in done_ids]
